@@ -105,6 +105,9 @@ def gen_grammar(rng, adversarial=0.3, max_nts=6, max_terms=5, allow_empty_termin
     nt_pool = (HELPER_NAMES + RESERVED_CASE_NAMES + UNDERSCORE_NAMES + PLAIN_NAMES) if use_adv else PLAIN_NAMES
     if rng.random() < 0.1:
         nt_pool = nt_pool + LETTERLESS
+    if rng.random() < 0.08:
+        # spelled like the emitter's own lower-case identifiers (rejected by the capitalisation rule today)
+        nt_pool = ['_nodes', '_states', '_x_0', '_a_0', '_states_1'] + nt_pool[:3]
     names = pick_names(rng, list(nt_pool), nn, avoid=RUST_RESERVED)
     t_pool = (HELPER_NAMES + RESERVED_CASE_NAMES + UNDERSCORE_NAMES + TERMINAL_NAMES) if use_adv else TERMINAL_NAMES
     tnames = pick_names(rng, list(t_pool), nterm, avoid=set(names) | RUST_RESERVED)
@@ -304,7 +307,7 @@ def add_motifs(rng, g, behaviour=False):
     tn = [t for t, _ in g.terminals]
     for _ in range(rng.choice([1, 1, 2, 3])):
         m = rng.choice(['nullable_chain', 'nullable_chain', 'nullable_chain', 'unit_chain', 'opt_list', 'shared_prefix', 'shared_prefix', 'eps_alts',
-                        'prefix_loop', 'prefix_loop', 'late_merge', 'late_merge'])
+                        'prefix_loop', 'prefix_loop', 'late_merge', 'late_merge', 'wide_prefix', 'wide_prefix'])
         new = []
         if m == 'nullable_chain':
             k = rng.randint(2, 5)
@@ -377,6 +380,31 @@ def add_motifs(rng, g, behaviour=False):
             new.append(_mk('struct', x, [(None, _wrap(rng, [('T', pp), ('N', y)]))], behaviour))
             new.append(_mk('enum', y, alts, behaviour))
             head = ('N', x)
+        elif m == 'wide_prefix':
+            # alternatives that share a prefix of L symbols and then differ: a nonterminal (declared right after, with
+            # several alternatives of its own, so that their rule indices are the next ones) or a terminal.  The state after
+            # the prefix holds items with dot = L together with dot-0 items of the following rules; L is often 8, 10 or 16
+            # (anything that packs (rule, dot) into one number collides there).
+            while len(tn) < 5:
+                t = 'Tk%d' % len(tn)
+                g.terminals.append((t, 'u32'))
+                tn.append(t)
+            L = rng.choice([7, 8, 8, 8, 9, 10, 10, 12, 13, 16, 16])
+            pre = [('T', rng.choice(tn)) for _ in range(L)]
+            blk = _fresh_nt(g, 'Blk')
+            g.nts.append(_mk('struct', blk, [], behaviour))
+            w = _fresh_nt(g, 'Wide')
+            del g.nts[-1]
+            firsts = rng.sample(tn, min(len(tn), rng.randint(3, 5)))
+            a = firsts[0]
+            alts = [('Def', _wrap(rng, pre + [('N', blk)]))]
+            if rng.random() < 0.3:
+                alts.append(('Alt', _wrap(rng, pre + [('N', blk), ('T', rng.choice(tn))])))
+            alts.append(('Decl', _wrap(rng, pre + [('T', a)])))
+            new.append(_mk('enum', w, alts, behaviour))
+            balts = [('B%d' % i, _wrap(rng, [('T', t)] + ([('T', rng.choice(tn))] if rng.random() < 0.5 else []))) for i, t in enumerate(firsts[1:])]
+            new.append(_mk('enum' if len(balts) > 1 else 'struct', blk, balts if len(balts) > 1 else [(None, balts[0][1])], behaviour))
+            head = ('N', w)
         elif m == 'late_merge':
             # E -> l d E | d d d | l E r [| v]: one production appears at two dot positions in a state, the state discovered
             # last still has successors, and lookaheads reach it only in the re-propagation phase (which state is last
@@ -419,6 +447,8 @@ def add_motifs(rng, g, behaviour=False):
             head = ('N', d)
         # declaration order of the new nonterminals: as written (use before definition), reversed, or shuffled
         r = rng.random()
+        if m == 'wide_prefix' and r < 0.8:
+            r = 0.0
         if r < 0.4:
             pass
         elif r < 0.7:
@@ -673,6 +703,28 @@ LEX_PIECES = ['start', 'struct', 'enum', 'terminal', '_', 'Foo', 'bar_9', '$Tok'
               '#[derive(Debug, Clone)]', '#[cfg(any(a, b))]', '​', '﻿', '\x00', '\x7f', '\u0085']
 
 
+# one representative of every kind of lexeme and of every kind of junk, for exhaustive pair / triple coverage
+LEX_CORE = ['start', 'struct', 'enum', 'terminal', '_', 'Abc', 'abc', 'x1', '_x', '$Abc', '$start', '$_', '$', ':', '::', ':::', ',',
+            '(', ')', '{', '}', '<', '>', '#[a]', '#[a(b)]', '#[', '#', '\u00e9', '\u00a0', '\ufeff', '//', '/', '0', '9a', '"', '-', '.', ';', '=',
+            '\u3000', '\r', 'Start', 'terminals']
+LEX_SEPS = ['', ' ', '\n', '//c\n', '\u00a0', '\t']
+
+
+def lex_pairs():
+    """Every ordered pair of core lexemes, glued and separated in every way; every ordered triple of a smaller core, glued."""
+    out = []
+    for a in LEX_CORE:
+        for b in LEX_CORE:
+            for sep in LEX_SEPS:
+                out.append(a + sep + b)
+    small = ['start', '_', 'Ab', '$Ab', ':', '::', '(', '#[a]', '\u00e9', '/', ' ', '\n']
+    for a in small:
+        for b in small:
+            for c in small:
+                out.append(a + b + c)
+    return out
+
+
 def gen_lex_text(rng, n=None):
     n = n if n is not None else rng.randint(0, 14)
     return ''.join(rng.choice(LEX_PIECES) + rng.choice(['', '', ' ', '\n']) for _ in range(n))
@@ -701,6 +753,13 @@ def mutate_token_items(rng, items):
     r = rng.random()
     i = rng.randrange(len(flat))
     pool = ['start', 'struct', 'enum', 'terminal', '_', 'Zz', '$Zz', ':', '::', ',', '(', ')', '{', '}', '<', '>', '#[zz]', 'fld']
+    if rng.random() < 0.2:
+        # aim at the places where the neighbouring token matters: right after / before `::`, `$`-names, `<`, `:`
+        spots = [k for k, t in enumerate(flat) if t in ('::', ':', '<', ',') or t.startswith('$')]
+        if spots:
+            k = rng.choice(spots)
+            flat.insert(k + (1 if rng.random() < 0.7 else 0), rng.choice(['start', 'struct', 'enum', 'terminal', '_', '::', '$Zz', 'Zz']))
+            return [flat]
     if r < 0.3:
         del flat[i]
     elif r < 0.55:
@@ -725,9 +784,18 @@ def inject_violations(rng, g, k=None):
         v = rng.choice(['nostart', 'multistart', 'noterm', 'multiterm', 'undef_nt', 'undef_t', 'wrong_ns_nt',
                         'wrong_ns_t', 'clash_nt', 'clash_t', 'clash_tenum', 'clash_nt_t', 'variant_name',
                         'variant_seq', 'lower_nt', 'lower_t', 'lower_tenum', 'lower_variant', 'upper_field',
-                        'undef_start', 'start_is_terminal'])
+                        'undef_start', 'start_is_terminal', 'ref_tenum_as_nt', 'ref_tenum_as_t', 'start_is_tenum'])
         kinds.append(v)
         nts = g.nts
+        if v == 'ref_tenum_as_nt' and nts and g.tenum:
+            _replace_sym(rng, g, ('N', g.tenum))          # `tok: Token` — the terminal ENUM's name where a nonterminal is due
+            continue
+        if v == 'ref_tenum_as_t' and nts and g.tenum:
+            _replace_sym(rng, g, ('T', g.tenum))          # `$Token`
+            continue
+        if v == 'start_is_tenum' and g.tenum:
+            g.start = g.tenum
+            continue
         if v == 'nostart':
             g.start_count = 0
         elif v == 'multistart':
